@@ -53,7 +53,24 @@ def _run_one(h, twin, timeout_s):
     except RecursionError as e:
         status, err = 'escape', 'recursion: %s' % e
     except Exception as e:
-        status, err = 'crash', ''.join(traceback.format_exception(type(e), e, e.__traceback__)[-6:])
+        tb = traceback.extract_tb(e.__traceback__)
+        in_repo = [t for t in tb if t.filename.startswith(core.REPO)]
+        if in_repo and run.obligations:
+            # code of /repo raised where the contract's harness calls it directly: that is a failed obligation, not a checker crash
+            ob = core.Obligation()
+            ob.kind, ob.sig, ob.model, ob.replay, ob.note = 'post', '-', None, None, None
+            ob.clause = 'the function under contract raises nothing here [%s: %s at %s:%d]' % (
+                type(e).__name__, e, in_repo[-1].filename[len(core.REPO) + 1:], in_repo[-1].lineno)
+            ob.name = '%s#%sraises-nothing@-' % (h.function, (run.case + ':') if getattr(run, 'case', None) else '')
+            ob.verdict, ob.backend, ob.time = 'failed', 'ground', 0.0
+            if run.concretise:
+                try:
+                    ob.replay = run.concretise(None, ob)
+                except Exception:
+                    ob.replay = None
+            run.obligations.append(ob)
+        else:
+            status, err = 'crash', ''.join(traceback.format_exception(type(e), e, e.__traceback__)[-6:])
     run.wall = time.time() - t0
     run.status, run.err = status, err
     core.RUN = None
